@@ -8,6 +8,8 @@ import (
 	"runtime/pprof"
 
 	"github.com/hashicorp/consul/internal/verifmc/c03"
+	"github.com/hashicorp/consul/internal/verifmc/c04"
+	"github.com/hashicorp/consul/internal/verifmc/c05"
 	"github.com/hashicorp/consul/internal/verifmc/ev"
 )
 
@@ -18,6 +20,8 @@ type checkDef struct {
 
 var checks = map[string]checkDef{
 	"C03": {"model_checking", c03.Run},
+	"C04": {"model_checking", c04.Run},
+	"C05": {"model_checking", c05.Run},
 }
 
 func main() {
